@@ -27,6 +27,13 @@ disposes what they hold), multiprocessing in proxy.py (the worker runs in a
 thread), the component manager (closing it ends the side's components and
 local bridges).  After close() the side's process is considered gone.
 
+Naming of the sides: the model identifies sides abstractly and origin markers
+are compared for equality of side ids.  Every case carries a naming scheme
+('names'): the standard one (client, pilot.0000, ...) or one in which ids
+contain one another (p1/p10/p100, gpu/gpu.big, pilot.1000/pilot.10000 after the
+counter overflow, ids containing 'client' or contained in it, suffixes); the
+expectation is the same under every scheme.
+
 Fault cases (kind 'fault'): a fault schedule names, per crosswire (side,
 direction, channel), the calls of publisher.put on that crosswire's publisher
 (1st, 2nd, ...) that raise; the in-memory publisher counts the calls made by the
@@ -496,7 +503,7 @@ class C16(Prop):
         'heartbeat timeout, messages in flight while a session closes (life-cycle events happen at silent moments), '
         'the task queues crosswired by the task manager, the contents of messages other than origin/fwd',
     ]
-    assumptions = ['module names (client, pilot ids) are pairwise distinct',
+    assumptions = ['module names (client, pilot ids) are pairwise distinct (they may contain one another)',
                    'every connected side runs _crosswire_proxy exactly once against the same proxy channels',
                    'one client session per session id; sessions connect and close while no message is in flight',
                    'the proxy does not time the session out (heartbeats arrive)',
